@@ -466,6 +466,103 @@ def m_offsets(s):
                 yield Mut(c, 'offset', None, path + [f['name']], pos, 'accept', 'offset exactly at the minimum %d' % lo)
 
 
+U64 = 2 ** 64
+
+
+def m_offset_overflow(s):
+    """a non-constant member must end at or before 2^64-1: `offset_t` holds every running offset
+    (sbeppc fix 0032; before it the running offset wrapped around and the next member landed at 0).
+    Rejecting edits: the offset at which the member ends at 2^64; acceptance twins: one byte less."""
+    types = s['types']
+    # (1) fresh, unused composites (their size does not propagate anywhere)
+    pub = next((t for t in types if t['k'] == 'type' and t.get('presence') != 'constant' and
+                elem_size(t, types) > 0), None)
+    fam = [
+        ([{'k': 'type', 'name': 'a', 'prim': 'uint32', 'offset': U64 - 4}, {'k': 'type', 'name': 'b', 'prim': 'uint32'}],
+         ['a'], 'custom offset 2^64-4 + 4 bytes'),
+        ([{'k': 'type', 'name': 'a', 'prim': 'uint8', 'offset': U64 - 2}, {'k': 'type', 'name': 'b', 'prim': 'uint8'}],
+         ['b'], 'default placement at 2^64-1 + 1 byte'),
+        ([{'k': 'type', 'name': 'k', 'prim': 'uint8', 'presence': 'constant', 'const': '1'},
+          {'k': 'type', 'name': 'a', 'prim': 'uint64', 'offset': U64 - 8}], ['a'], 'custom offset 2^64-8 + 8 bytes, behind a constant'),
+        ([{'k': 'composite', 'name': 'inner', 'elems': [{'k': 'type', 'name': 'x', 'prim': 'uint16', 'offset': U64 - 2}]}],
+         ['inner', 'x'], 'member of an inline composite: 2^64-2 + 2 bytes'),
+        ([{'k': 'composite', 'name': 'inner', 'elems': [{'k': 'type', 'name': 'x', 'prim': 'uint16'}], 'offset': U64 - 2}],
+         ['inner'], 'inline composite member at 2^64-2 + 2 bytes'),
+        ([{'k': 'type', 'name': 'a', 'prim': 'uint32', 'offset': U64 - 5}], None, 'the largest offset that fits: 2^64-5 + 4 bytes = 2^64-1'),
+        ([{'k': 'type', 'name': 'a', 'prim': 'uint8', 'offset': U64 - 2},
+          {'k': 'type', 'name': 'k', 'prim': 'uint8', 'presence': 'constant', 'const': '1'}], None,
+         'a constant behind a member that ends at 2^64-1'),
+        ([{'k': 'type', 'name': 'a', 'prim': 'char', 'length': 0, 'offset': U64 - 1}], None, 'zero-length member at 2^64-1'),
+    ]
+    if pub is not None:
+        sz = elem_size(pub, types)
+        fam.append(([{'k': 'ref', 'name': 'r', 'type': pub['name'], 'offset': U64 - sz}], ['r'], 'ref member at 2^64-%d + %d bytes' % (sz, sz)))
+        fam.append(([{'k': 'ref', 'name': 'r', 'type': pub['name'], 'offset': U64 - sz - 1}], None, 'ref member ending at 2^64-1'))
+    for members, at, why in fam:
+        c = copy.deepcopy(s)
+        name = fresh(s, 'OvfC')
+        c['types'].append({'k': 'composite', 'name': name, 'elems': copy.deepcopy(members)})
+        if at is None:
+            yield Mut(c, 'offset-overflow', None, ['types', name], 'fresh top-level composite', 'accept', why)
+        else:
+            yield Mut(c, 'offset-overflow', 'offsetOverflow', ['types', name] + at, 'fresh top-level composite', 'reject', why)
+    # (2) the last non-constant member of every existing composite
+    for addr, path, e, kind in walk_elems(s):
+        if e['k'] != 'composite':
+            continue
+        mins, _ = member_minima(e['elems'], types)
+        if not mins:
+            continue
+        i, lo = mins[-1]
+        x = e['elems'][i]
+        sz = elem_size(x, types)
+        if sz <= 0 or sz >= U64:
+            continue
+        pos = '%s member of %s composite (%s)' % (x['k'], kind, 'header' if in_header(s, addr) else 'plain')
+        c = copy.deepcopy(s)
+        get(c, addr)['elems'][i]['offset'] = U64 - sz
+        yield Mut(c, 'offset-overflow', 'offsetOverflow', path + [x['name']], pos, 'reject', 'offset 2^64-%d + %d bytes' % (sz, sz))
+    # (3) the last non-constant field of every level
+    mh = find(types, s.get('headerType', 'messageHeader'))
+    for addr, path, l, depth in walk_levels(s):
+        mins, _ = field_minima(l.get('fields', []), types)
+        if not mins:
+            continue
+        i, lo = mins[-1]
+        f = l['fields'][i]
+        sz = field_size(f, types)
+        if sz <= 0 or sz >= U64:
+            continue
+        t = find(types, f['type'])
+        pos = 'field(%s) of %s' % ('primitive' if t is None else t['k'], level_kind(depth))
+        c = copy.deepcopy(s)
+        get(c, addr)['fields'][i]['offset'] = U64 - sz
+        yield Mut(c, 'offset-overflow', 'offsetOverflow', path + [f['name']], pos, 'reject', 'offset 2^64-%d + %d bytes' % (sz, sz))
+        # twin: the block length 2^64-1 must be representable in the level header
+        h = mh if depth == 0 else find(types, l['dim'])
+        if h is not None and h['k'] == 'composite':
+            tt, _ = _member_type(s, h, 'blockLength')
+            if tt is not None and tt.get('prim') == 'uint64':
+                c = copy.deepcopy(s)
+                lv = get(c, addr)
+                lv['fields'][i]['offset'] = U64 - sz - 1
+                lv['blockLength'] = None
+                yield Mut(c, 'offset-overflow', None, path + [f['name']], pos, 'accept', 'field ends at 2^64-1 (uint64 blockLength header)')
+    # (4) a fresh group under a fresh 64-bit dimension composite: both verdicts at group level whatever the schema's headers are
+    if s['messages']:
+        for off, cls in ((U64 - 4, 'offsetOverflow'), (U64 - 5, None)):
+            c = copy.deepcopy(s)
+            dim = fresh(s, 'OvfDim')
+            c['types'].append({'k': 'composite', 'name': dim, 'elems': [{'k': 'type', 'name': 'blockLength', 'prim': 'uint64'},
+                                                                        {'k': 'type', 'name': 'numInGroup', 'prim': 'uint8'}]})
+            g = _mk_group(s, fresh(s, 'OvfG'), dim)
+            g['fields'][0]['offset'] = off
+            c['messages'][0].setdefault('groups', []).append(g)
+            yield Mut(c, 'offset-overflow', cls, ['messages', c['messages'][0]['name'], g['name'], g['fields'][0]['name']],
+                      'field(primitive) of a fresh group with a uint64 blockLength header', 'reject' if cls else 'accept',
+                      'offset %s + 4 bytes' % ('2^64-4' if cls else '2^64-5'))
+
+
 def m_block_length(s):
     types = s['types']
     for addr, path, l, depth in walk_levels(s):
@@ -1861,6 +1958,7 @@ def mutants(s, rng, names_rotate=0):
 
 def _mutants(s, rng, names_rotate=0):
     yield from m_offsets(s)
+    yield from m_offset_overflow(s)
     yield from m_block_length(s)
     yield from m_values(s, rng)
     yield from m_choices(s, rng)
